@@ -599,24 +599,48 @@ Definition snapshot (s : state) : snap :=
                    (sortN (pool_ids s)))
          (canon_imap (by_peer s)) (canon_imap (by_tag s)).
 
+(* ---- MsgSend events -------------------------------------------------------------------------------
+   (stream, (message, true = MsgSend entered / false = MsgSend returned)).  The fake drpc streams of the harness
+   log both under the stream's own mutex; the model produces them from the labels: WaitOne handing a message to the
+   write loop is immediately followed by the MsgSend call ([LTake] with a message = entry), [LSendOk] / [LSendFail]
+   of a stream with a message in flight = return. *)
+Definition ev := (N * (N * bool))%type.
+
+Definition infl (s : state) (sid : N) : option N :=
+  match hget sid (objs s) with Some st => st_inflight st | None => None end.
+
+Definition label_events (s : state) (l : label) : list ev :=
+  if fatal s || panicked s then [] else
+  match l with
+  | LTake sid => match hget sid (objs s) with
+                 | Some st => match snd (take st) with Some m => [(sid, (m, true))] | None => [] end
+                 | None => []
+                 end
+  | LSendOk sid | LSendFail sid => match infl s sid with Some m => [(sid, (m, false))] | None => [] end
+  | _ => []
+  end.
+
+Fixpoint run_events (s : state) (ls : list label) : list ev :=
+  match ls with
+  | [] => []
+  | l :: r => label_events s l ++ run_events (step s l) r
+  end.
+
+(* the entries among the events: (stream, message) *)
+Definition entries (evs : list ev) : list (N * N) :=
+  flat_map (fun e : ev => if snd (snd e) then [(fst e, fst (snd e))] else []) evs.
+
 Record obs := mkObs {
   o_err     : N;                     (* error class of the call (0 = nil) *)
   o_ids     : list N;                (* Streams(): sorted ids; AddStream: the new id *)
   o_takes   : list (N * N);          (* (stream, message) for every MsgSend entered during the operation *)
+  o_events  : list ev;               (* MsgSend ENTRY and RETURN events of the operation, per stream in the order they
+                                        happened (grouped by stream id: the order across streams is the scheduler's) *)
   o_closed  : list N;                (* streams whose drpc Close() was called during the operation *)
   o_removed : list (N * list N);     (* close-hook notifications: (stream, sorted tags) *)
   o_snap    : snap;                  (* indexes and queue lengths after the operation (verif hook) *)
   o_timely  : bool                   (* the call returned normally within the latency guard *)
 }.
-
-Definition takes_diff (a b : state) (ids : list N) : list (N * N) :=
-  flat_map (fun sid =>
-    match hget sid (objs a), hget sid (objs b) with
-    | Some x, Some y => if Nat.ltb (length (st_taken x)) (length (st_taken y))
-                        then [(sid, last (st_taken y) 0)] else []
-    | None, Some y => match st_taken y with [] => [] | _ => [(sid, last (st_taken y) 0)] end
-    | _, _ => []
-    end) ids.
 
 Definition flag_diff (f : stream -> bool) (a b : state) (ids : list N) : list N :=
   filter (fun sid =>
@@ -630,9 +654,11 @@ Definition run_op (s : state) (i : N) (op : hop) : state * obs :=
   let s' := run s ls in
   let o := match ls with l :: _ => snd (step_out s l) | [] => ONone end in
   let ids := all_ids s' 0 in
+  let evs := sortK (run_events s ls) in        (* stable: per stream the order of the labels *)
   (s', mkObs (match o with OErr c => c | _ => 0 end)
              (match o with OIds l => sortN l | ONew sid => [sid] | _ => [] end)
-             (takes_diff s s' ids)
+             (entries evs)
+             evs
              (flag_diff st_qclosed s s' ids)
              (map (fun sid => (sid, match hget sid (objs s') with Some st => sortN (st_tags st) | None => [] end))
                   (flag_diff st_removed s s' ids))
@@ -713,9 +739,42 @@ Fixpoint spec_from (st : ost) (i : N) (l : list obs) : bool :=
   | o :: r => obs_ok st i o && spec_from (obs_next st i o) (N.succ i) r
   end.
 
+(* ---- one writer per stream: over the MsgSend entry / return log of ONE stream, an entry never happens while
+   another MsgSend of that stream has not returned, and a return belongs to the message that is in flight.  (So the
+   order in which messages of a stream reach the wire is the order of the entries, which [obs_ok] requires to be the
+   order of acceptance; with two MsgSend calls in flight on one stream the wire order is the peer's / scheduler's
+   choice.)  [alt_run cur l] = the message in flight after the log [l], None = the log violates the rule. *)
+Fixpoint alt_run (cur : option N) (l : list (N * bool)) : option (option N) :=
+  match l with
+  | [] => Some cur
+  | (m, true) :: r => match cur with None => alt_run (Some m) r | Some _ => None end
+  | (m, false) :: r => match cur with
+                       | Some m0 => if m0 =? m then alt_run None r else None
+                       | None => None
+                       end
+  end.
+
+Definition events_of (sid : N) (evs : list ev) : list (N * bool) :=
+  map snd (filter (fun e : ev => fst e =? sid) evs).
+
+Definition stream_events_ok (evs : list ev) (sid : N) : bool :=
+  match alt_run None (events_of sid evs) with Some _ => true | None => false end.
+
+Fixpoint pairs_eqb (a b : list (N * N)) : bool :=
+  match a, b with
+  | [], [] => true
+  | x :: a', y :: b' => (fst x =? fst y) && (snd x =? snd y) && pairs_eqb a' b'
+  | _, _ => false
+  end.
+
+(* the FIFO clause of [obs_ok] speaks about [o_takes]: these must be exactly the entries of the event log *)
+Definition spec_events (observed : list obs) : bool :=
+  forallb (fun o => pairs_eqb (entries (o_events o)) (o_takes o)) observed
+  && (let evs := flat_map o_events observed in forallb (stream_events_ok evs) (map fst evs)).
+
 (* [ops] are the inputs; the predicate only reads the observations (operation i carries message i) *)
 Definition spec_C19 (ops : list hop) (observed : list obs) : bool :=
-  Nat.eqb (length ops) (length observed) && spec_from (mkOst [] [] []) 0 observed.
+  Nat.eqb (length ops) (length observed) && spec_from (mkOst [] [] []) 0 observed && spec_events observed.
 
 (* the part of [obs_ok] that looks at one observation only *)
 Definition obs_static_ok (o : obs) : bool :=
